@@ -31,6 +31,13 @@ THEOREMS = [
     "Marwood.Proofs.C11.parse_cut_incomplete",
     "Marwood.Proofs.C11.parse_complete_not_incomplete",
     "Marwood.Proofs.C11.parse_result_stable",
+    # regenerated from lex.rs / char.rs / opcode.rs / cell.rs on every run (translate/tables.py)
+    "Marwood.Proofs.Tables.char_classes_agree",
+    "Marwood.Proofs.Tables.named_chars_sound",
+    "Marwood.Proofs.Tables.named_chars_complete",
+    "Marwood.Proofs.Tables.token_types_agree",
+    "Marwood.Proofs.Tables.opcodes_agree",
+    "Marwood.Proofs.Tables.primitive_symbols_agree",
 ]
 PROFILE = "debug"   # overflow checks on: arithmetic overflow is an observable panic
 
